@@ -370,3 +370,79 @@ theorem symlink_owner {fs fs1 : T} {p : Path} {target : Bytes} (h : symlink fs t
 
 end Fs
 end Absnfs
+
+namespace Absnfs
+namespace Fs
+
+/-- two filesystems are the same map (entry order in the list and the next inode number aside) -/
+def SameMap (a b : T) : Prop := ∀ q, get a q = get b q
+
+theorem SameMap.refl (a : T) : SameMap a a := fun _ => rfl
+theorem SameMap.symm {a b : T} (h : SameMap a b) : SameMap b a := fun q => (h q).symm
+theorem SameMap.trans {a b c : T} (h1 : SameMap a b) (h2 : SameMap b c) : SameMap a c := fun q => (h1 q).trans (h2 q)
+
+/-- stores at different paths commute -/
+theorem set_set_comm (fs : T) (p q : Path) (e f : Entry) (h : p ≠ q) :
+    SameMap (set (set fs p e) q f) (set (set fs q f) p e) := by
+  intro x
+  rw [get_set, get_set, get_set, get_set]
+  by_cases hx : x = q
+  · subst hx; simp [Ne.symm h]
+  · by_cases hy : x = p
+    · subst hy; simp [hx]
+    · simp [hx, hy]
+
+theorem get_del (fs : T) (p q : Path) : get (del fs p) q = if q = p then none else get fs q := by
+  unfold get del
+  simp only
+  induction fs.ents with
+  | nil => simp
+  | cons x xs ih =>
+    simp only [List.filter_cons]
+    by_cases hx : x.1 = p
+    · have hne : (x.1 != p) = false := by simp [hx]
+      simp only [hne, Bool.false_eq_true, if_false, List.find?_cons]
+      by_cases hq : q = p
+      · simp only [hq, if_true] at ih ⊢; exact ih
+      · have : (x.1 == q) = false := by rw [hx]; simpa using fun hh => hq hh.symm
+        simp only [hq, if_false, this] at ih ⊢
+        exact ih
+    · have hne : (x.1 != p) = true := by simpa using hx
+      simp only [hne, if_true, List.find?_cons]
+      by_cases hxq : x.1 = q
+      · have : (x.1 == q) = true := by simpa using hxq
+        have hq : q ≠ p := by rw [← hxq]; exact hx
+        simp [this, hq]
+      · have : (x.1 == q) = false := by simpa using hxq
+        simp only [this]
+        exact ih
+
+/-- a store and a removal at different paths commute -/
+theorem set_del_comm (fs : T) (p q : Path) (e : Entry) (h : p ≠ q) :
+    SameMap (del (set fs p e) q) (set (del fs q) p e) := by
+  intro x
+  rw [get_del, get_set, get_set, get_del]
+  by_cases hx : x = q
+  · subst hx; simp [Ne.symm h]
+  · by_cases hy : x = p
+    · subst hy; simp [hx]
+    · simp [hx, hy]
+
+theorem del_del_comm (fs : T) (p q : Path) : SameMap (del (del fs p) q) (del (del fs q) p) := by
+  intro x
+  rw [get_del, get_del, get_del, get_del]
+  by_cases hx : x = q <;> by_cases hy : x = p <;> simp [hx, hy]
+
+/-- resolution only depends on the map -/
+theorem walkFrom_sameMap {a b : T} (h : SameMap a b) (pre : Path) (cs : List Name) : walkFrom a pre cs = walkFrom b pre cs :=
+  walkFrom_congr b a pre cs (fun _ _ => h _)
+
+theorem walk_sameMap {a b : T} (h : SameMap a b) (p : Path) : walk a p = walk b p := walkFrom_sameMap h [] p
+
+/-- what an operation on `p` stores does not change how any path that does not pass through `p` resolves:
+    operations on names in different places of the tree do not see each other -/
+theorem resolution_independent (fs : T) (p q : Path) (e : Entry) (h : ¬ p.isPrefixOf q = true) :
+    walk (set fs p e) q = walk fs q := walk_set_other fs p q e h
+
+end Fs
+end Absnfs
